@@ -3,7 +3,7 @@ use sway_types::Span;
 
 use crate::CompileError;
 
-use super::patstack::PatStack;
+use super::{patstack::PatStack, pattern::Pattern};
 
 /// A `Matrix` is a `Vec<PatStack>` that is implemented with special methods
 /// particular to the match exhaustivity algorithm.
@@ -83,8 +83,22 @@ impl Matrix {
         let mut pat_stack = PatStack::empty();
         for row in self.rows.iter() {
             let first = row.first(handler, span)?;
-            pat_stack.push(first.into_root_constructor())
+            push_root_constructors(first, &mut pat_stack);
         }
-        Ok(pat_stack.remove_duplicates())
+        return Ok(pat_stack.remove_duplicates());
+
+        /// Σ contains only root constructors. A wildcard has no root constructor and
+        /// an or-pattern contributes the root constructors of all of its alternatives.
+        fn push_root_constructors(pat: Pattern, sigma: &mut PatStack) {
+            match pat {
+                Pattern::Wildcard => {}
+                Pattern::Or(alternatives) => {
+                    for alternative in alternatives.into_iter() {
+                        push_root_constructors(alternative, sigma);
+                    }
+                }
+                pat => sigma.push(pat.into_root_constructor()),
+            }
+        }
     }
 }
